@@ -139,6 +139,14 @@ def anchor_policies(chk, rng, tier):
                     kind = "wrong-document-accepted" if (r1 == 0 and dk != "equal") else "valid-rejected"
                     chk.violation("verdict:%s:verifyDataHash:%s-context:doc=%s" % (kind, which, "bit" if dk.startswith("bit") else dk),
                                   "KSI_verifyDataHash through %s context with document=%s returns 0x%x (KSI_verifySignature 0x%x): %s" % ("the signature's own" if which == "same" else "another, identically configured", dk, r1, r2, line), dict(line=line, log=[x[:400] for x in s.log[-6:]]))
+            # KSI_Signature_verifyDocument: the document itself is hashed; only the signed document verifies -- not the empty one, a prefix, an extension
+            for dk, data in [("equal", cs.docdata), ("empty", b""), ("prefix", cs.docdata[:-1]), ("extended", cs.docdata + b"\0"), ("other", b"another document")]:
+                line = s.cmd("VDH %s %s %s %s %s %s %s %s" % (cs.sig.hex(), cs.doc.hex(), which, W.w.ca_pem, path, pubfile.E_OID, pubfile.EMAIL.encode().hex(), data.hex() or "E"))[-1]
+                f = netsim.kv(line); n += 1
+                r3 = int(f.get("document", "0xffff"), 16)
+                if (r3 == 0) != (dk == "equal"):
+                    chk.violation("verdict:%s:verifyDocument:%s-context:doc=%s" % ("wrong-document-accepted" if r3 == 0 else "valid-rejected", which, dk),
+                                  "KSI_Signature_verifyDocument with the %s document returns 0x%x: %s" % (dk, r3, line), dict(line=line, log=[x[:400] for x in s.log[-6:]]))
         s.cmd("BNEW")
     except netsim.Died as ex:
         chk.violation("crash:anchor-policies", "libksi crashed\n" + str(ex)[-2000:], dict(log=[x[:400] for x in s.log[-10:]])); s = None
